@@ -99,7 +99,8 @@ class ConnSem(Semantics):
 def run(ctx):
     idx = ctx.index
     info = scheduler_info(ctx)
-    hc = idx.func(f"{LOCAL}:Server.handle_connection")
+    from ..inline import inlined
+    hc = inlined(ctx, idx.func(f"{LOCAL}:Server.handle_connection"))
     hcon = f"{hc.module.relpath}::{hc.qual}"
     kind_var, msg_var, branches = _kind_branches(ctx, hc)
 
